@@ -117,6 +117,8 @@ def replay(ctx, engine, fl, path):
         return p.returncode
     if engine == "cfgsim":
         return replay_c12(ctx, path)
+    if engine == "toolsim":
+        return replay_c20(ctx, path)
     print("unknown engine in replay file: %s" % engine)
     return 2
 
@@ -263,3 +265,55 @@ def replay_c12(ctx, path):
 
 
 CHECKS["C12"] = check_c12
+
+
+# ----------------------------------------------------------------------------- C20 toolsim
+def build_toolsim(ctx):
+    props.build_flavour(ctx, "plain")
+    with props.BuildLock(ctx.B):
+        p = subprocess.run([sys.executable, os.path.join(ctx.V, "mk", "buildlib.py"), "tools", os.path.join(ctx.B, "tools", "obj"), "--repo", ctx.repo], capture_output=True, text=True)
+        if p.returncode != 0:
+            sys.stderr.write(p.stdout + p.stderr); print("HARNESS-ERROR property=C20 (tools do not build)"); raise SystemExit(2)
+        p = subprocess.run(["make", "-C", os.path.join(ctx.V, "sim"), "FLAVOUR=plain", "REPO=" + ctx.repo, "B=" + ctx.B, "LINKSAN=0", "-j16", "toolsim"], capture_output=True, text=True)
+        if p.returncode != 0:
+            sys.stderr.write(p.stdout[-3000:] + p.stderr[-6000:]); raise SystemExit(2)
+    return os.path.join(ctx.B, "tools", "toolsim")
+
+
+def check_c20(ctx):
+    exe = build_toolsim(ctx)
+    known, _ = props.load_known(ctx)
+    known_here = [k for k in known if k["property"] == "C20"]
+    base = 8000 if ctx.tier == "quick" else 300000
+    results = []
+    for name, extra, runs, first in (("tools", [], base, 0), ("tools+iofaults", ["--faults"], base // 8, base)):
+        out = os.path.join(ctx.B, "out", "C20-%s-%d.json" % (name, os.getpid()))
+        os.makedirs(os.path.dirname(out), exist_ok=True)
+        cmd = [exe, "--tier", ctx.tier, "--seed", str(ctx.seed), "--runs", str(runs), "--first", str(first), "--out", out, "--outdir", os.path.join(ctx.B, "out"), "--replaydir", ctx.replay_dir] + extra
+        results.append((name, _run_json(cmd, out, "property=C20 " + name)))
+    violations, findings = [], []
+    for fl, r in results:
+        for v in r["violations"]:
+            v["flavour"] = fl
+            hit = [k for k in known_here if k["sig"] == v["sig"]]
+            (findings if hit else violations).append((v, hit[0] if hit else None))
+    st = {}
+    for _, r in results:
+        for k, v in r["stats"].items():
+            st[k] = st.get(k, 0) + v
+    extra = {"faults_fired": {"short_reads_at_the_file_layer": st.get("short_reads", 0), "write_errors_injected": st.get("write_errors_injected", 0), "io_fault_runs": st.get("fault_runs", 0), "crashes_under_io_faults(not a violation: the property is silent about I/O failure)": st.get("fault_crashes", 0)},
+             "invocations": {"valid": st.get("valid_invocations", 0), "invalid": st.get("invalid_invocations", 0)},
+             "components": {"real": "examples/*.c compiled with the repository's flags (main renamed per tool, fopen redirected), linked with the library built from the working tree", "simulated": "file layer (fopencookie streams over in-memory files with seeded read chunking and, in the fault configuration, read/write errors); one forked process per invocation"}}
+    rule = ("tool x block size x key length (legal range incl. in-between lengths) x counter/tweak (absent, short, full, carry-prone) x file length (0, 1, bs-1, bs, bs+1, 1023..1025, 2047..2049, random <= 5000) x hex spelling x "
+            "read-chunking policy; a quarter of the runs are invalid invocations (9 classes); oracle: output equals the library API's result, the inverse invocation restores the input, invalid invocations exit non-zero without "
+            "opening the output; distinct+non-trivial = distinct (tool, block size, key length, counter length, file-length class, validity, direction, chunk policy) combinations")
+    return props.finish(ctx, "exploration", rule, results, violations, findings, extra_cov=extra,
+                        assumptions=["the tools' documented behaviour is examples/README.md plus the usage text; well-formed hex only (even digit count, separators between bytes)", "glibc stdio hides short reads of the underlying layer, as POSIX requires"])
+
+
+def replay_c20(ctx, path):
+    exe = build_toolsim(ctx)
+    return subprocess.run([exe, "--replay", path]).returncode
+
+
+CHECKS["C20"] = check_c20
